@@ -56,17 +56,18 @@ type replayFile struct {
 
 type commonFlags struct {
 	names, attr, extra *string
-	depth              *int
+	depth, workers     *int
 	seed               *int64
 }
 
 func addCommon(fl *flag.FlagSet) *commonFlags {
 	return &commonFlags{
-		names: fl.String("names", "a,b", "element names of the model"),
-		depth: fl.Int("depth", 3, "closure depth of the projection"),
-		attr:  fl.String("attr", "", "attribution of divergence classes to properties, e.g. state:C01,err:C05"),
-		extra: fl.String("opt", "", "module-specific option"),
-		seed:  fl.Int64("seed", 1, "seed"),
+		names:   fl.String("names", "a,b", "element names of the model"),
+		depth:   fl.Int("depth", 3, "closure depth of the projection"),
+		attr:    fl.String("attr", "", "attribution of divergence classes to properties, e.g. state:C01,err:C05"),
+		extra:   fl.String("opt", "", "module-specific option"),
+		seed:    fl.Int64("seed", 1, "seed"),
+		workers: fl.Int("workers", 16, "replay workers"),
 	}
 }
 
@@ -101,7 +102,6 @@ func main() {
 		fl := flag.NewFlagSet("replay-graph", flag.ExitOnError)
 		module := fl.String("module", "fscore", "specification module the stream comes from")
 		adapter := fl.String("adapter", "mem", "real-code adapters, comma separated")
-		workers := fl.Int("workers", 16, "replay workers")
 		sample := fl.Float64("sample", 1, "fraction of states whose transitions are replayed")
 		maxStates := fl.Int64("max-states", 0, "stop after N states")
 		out := fl.String("out", "", "write the JSON summary here (default stdout)")
@@ -109,7 +109,7 @@ func main() {
 		_ = fl.Parse(os.Args[2:])
 		o := cf.opts()
 		ads := adaptersFor(*module, *adapter, o)
-		sum, err := engine.Run(os.Stdin, *module, ads, engine.Options{Workers: *workers, Sample: *sample, Seed: o.Seed, MaxStates: *maxStates, OutFile: *out})
+		sum, err := engine.Run(os.Stdin, *module, ads, engine.Options{Workers: *cf.workers, Sample: *sample, Seed: o.Seed, MaxStates: *maxStates, OutFile: *out})
 		if err != nil {
 			fatal(err)
 		}
